@@ -12,7 +12,7 @@ ALL = [f"C{i:02d}" for i in range(1, 21)]
 
 
 def run_one(args):
-    sid, tier, allchecks = args
+    sid, tier, allchecks, record = args
     d = os.path.join(VERIF, "seeded", sid)
     meta = json.load(open(os.path.join(d, "meta.json")))
     tmp = tempfile.mkdtemp(prefix="vk_seed_")
@@ -43,6 +43,10 @@ def run_one(args):
         else:
             verdict = "MISSED"
         detail = "; ".join(f"{p}:{','.join(v[1])}" for p, v in sorted(hit.items()))
+        if record and allchecks:
+            meta["detected_by"] = sorted(r for p, v in hit.items() for r in v[1])
+            meta["detected"] = bool(hit)
+            json.dump(meta, open(os.path.join(d, "meta.json"), "w"), indent=1)
         if err:
             detail += " || exit2: " + "; ".join(f"{p}:{v[2][0][:120] if v[2] else ''}" for p, v in sorted(err.items()))
         return sid, verdict, detail, meta
@@ -56,12 +60,13 @@ def main():
     ap.add_argument("-j", type=int, default=8)
     ap.add_argument("--all-checks", action="store_true")
     ap.add_argument("--tier", default="thorough")
+    ap.add_argument("--record", action="store_true", help="with --all-checks: write detected_by into meta.json")
     a = ap.parse_args()
     ids = sorted(s for s in os.listdir(os.path.join(VERIF, "seeded")) if a.k in s
                  and os.path.exists(os.path.join(VERIF, "seeded", s, "meta.json")))
     bad = 0
     with cf.ThreadPoolExecutor(a.j) as ex:
-        for sid, verdict, detail, meta in ex.map(run_one, [(s, a.tier, a.all_checks) for s in ids]):
+        for sid, verdict, detail, meta in ex.map(run_one, [(s, a.tier, a.all_checks, a.record) for s in ids]):
             print(f"{verdict:20s} {sid:12s} {detail[:300]}")
             bad += verdict not in ("DETECTED", "DETECTED-ELSEWHERE")
     print(f"{len(ids) - bad}/{len(ids)} detected")
